@@ -82,6 +82,15 @@ let run op (a : string array) =
            let rec ops p = if p + 2 < Array.length a then
                (let (o, p') = parse_op a p aux in match o with Some o -> o :: ops p' | None -> failwith "bad op") else [] in
            out_state g ^ "#" ^ String.concat "#" (List.map out_ostate (trace g (ops p))))
+  | "merge" ->
+      (* merge \t "ri rs im n" \t spec_1 ... spec_n *)
+      let fl = ints a.(0) in
+      let b i = List.nth fl i <> 0 in
+      let n = List.nth fl 3 in
+      let rec specs i p = if i = n then [] else (let (g, p') = parse_group a p in g :: specs (i + 1) p') in
+      let gs = specs 0 1 in
+      if List.exists (fun g -> g = None) gs then "ERR"
+      else out_ostate (merge_group (List.map (function Some g -> g | None -> failwith "none") gs) (b 0) (b 1) (b 2))
   | "to_tsd" ->
       let (g, _) = parse_group a 0 in
       (match g with None -> "ERR" | Some g -> let (rows, sup) = to_tsd g in
